@@ -34,13 +34,21 @@ NONE = ('NoneGridObject', 0, 0, None)
 HIDDEN = ('Hidden', 0, 0, None)
 
 
+_CONST = {Floor: FLOOR, Wall: WALL, NoneGridObject: NONE, Hidden: HIDDEN, MovingObstacle: ('MovingObstacle', 0, 0, None)}
+_NAMES = {}
+
+
 def odesc(o):
-    return (
-        type(o).__name__,
-        int(o.state_index),
-        int(o.color.value),
-        odesc(o.content) if isinstance(o, Box) else None,
-    )
+    t = type(o)
+    c = _CONST.get(t)
+    if c is not None:
+        return c
+    if t is Box:
+        return ('Box', 0, 0, odesc(o.content))
+    name = _NAMES.get(t)
+    if name is None:
+        name = _NAMES[t] = t.__name__
+    return (name, int(o.state_index), int(o.color.value), odesc(o.content) if isinstance(o, Box) else None)
 
 
 def mk(d):
